@@ -429,6 +429,9 @@ pub struct EndsEarly {
     pub asyncio: bool,
     /// short-transfer schedule of the source (empty: every read is served in full)
     pub caps: Vec<u32>,
+    /// 1 (mod 4): the stream ends exactly where a directory (root or leaf, chosen by `tile`) starts instead
+    #[serde(default)]
+    pub cut_kind: u8,
 }
 
 fn check_ends_early(c: &EndsEarly) -> CaseResult {
@@ -446,6 +449,24 @@ fn check_ends_early(c: &EndsEarly) -> CaseResult {
     let b = writer::build(&lay);
     if b.expected.is_empty() {
         return Ok(Meta::new(false).label(true, "no-tiles"));
+    }
+    if c.cut_kind % 4 == 1 {
+        // the source ends exactly where one of the directories starts: that directory was not transferred at all,
+        // so opening has to fail (an archive with an "empty" directory in its place would silently lack tiles)
+        let k = usize::from(c.tile) * b.dirs.len() >> 16;
+        let t = b.dirs[k].abs_off as usize;
+        let cut = b.bytes[..t].to_vec();
+        let sched = Sched { caps: c.caps.clone(), cycle: true, ..Sched::none() };
+        let kind = if c.asyncio { "async" } else { "sync" };
+        let opened = if c.asyncio {
+            guarded("from_async_reader", || block_on(PMTiles::from_async_reader(Stream::reader(cut.clone(), sched.clone()))).map(|pm| pm.num_tiles()))?
+        } else {
+            guarded("from_reader", || PMTiles::from_reader(Stream::reader(cut.clone(), sched.clone())).map(|pm| pm.num_tiles()))?
+        };
+        if let Ok(n) = opened {
+            fail!(format!("C15/ok-after-stream-end/open/{kind}"), "the source ends at byte {t}, where directory {k} of {} starts, and the archive opens with {n} of {} tiles", b.dirs.len(), b.expected.len());
+        }
+        return Ok(Meta::new(true).label(true, "source-ends-at-a-directory-start").label(k > 0, "source-ends-at-a-leaf-directory-start").label(c.asyncio, "async").label(!c.asyncio, "sync"));
     }
     let ids: Vec<u64> = b.expected.keys().copied().collect();
     let victim = ids[usize::from(c.tile) * ids.len() >> 16];
@@ -524,8 +545,9 @@ fn ends_early_strategy(max_big: u32) -> impl Strategy<Value = EndsEarly> {
         prop_oneof![1 => Just(0u16), 1 => Just(u16::MAX), 4 => any::<u16>()],
         any::<bool>(),
         prop_oneof![2 => Just(vec![]), 1 => proptest::collection::vec(prop_oneof![1u32..50, 50u32..70_000], 1..4)],
+        0u8..4,
     )
-        .prop_map(|(lay, big, tile, at, asyncio, caps)| EndsEarly { lay, big, tile, at, asyncio, caps })
+        .prop_map(|(lay, big, tile, at, asyncio, caps, cut_kind)| EndsEarly { lay, big, tile, at, asyncio, caps, cut_kind })
 }
 
 pub fn run(ctx: &Ctx) {
@@ -537,7 +559,8 @@ pub fn run(ctx: &Ctx) {
          zero bytes at end of stream. Non-trivial: 0 < k < N-1. Cases (instance, k) are distinct by construction and counted. \
          Further passes: (2) a fixed-size sink of every capacity below the needed size (uncompressed write scenarios); (3) generated archives whose source stream *ends* \
          inside a generated tile (tiles up to several hundred KiB / MiB, optional short-read schedule, sync and async): a lookup of a tile whose bytes are not all there \
-         must be Err (never Ok with fewer bytes, never reported absent), tiles that are completely there must come back exact, and re-writing the archive must be Err.",
+         must be Err (never Ok with fewer bytes, never reported absent), tiles that are completely there must come back exact, and re-writing the archive must be Err; \
+         in a quarter of the cases the stream ends exactly where a root or leaf directory starts instead, and opening must be Err.",
     );
     ctx.rec.assume("streams are the in-memory model harness/src/sio; a fault is an io::Error returned from read/write/seek/flush/close, permanently from index k on");
     let insts = instances(ctx);
@@ -628,6 +651,7 @@ pub fn run(ctx: &Ctx) {
     // third pass: the source simply ends (no error value from the stream itself) inside the tile data
     run_proptest(ctx, "source-ends-early", PtCfg::new(ctx.lanes, ctx.tier.pick(150, 4000)), || ends_early_strategy(ctx.tier.pick(300_000, 3 << 20)), check_ends_early);
     ctx.rec.floor("source-ends-early/opened", 20);
+    ctx.rec.floor("source-ends-at-a-leaf-directory-start", 20);
     ctx.rec.floor("source-ends-early/inside-tile>64KiB", 20);
     ctx.rec.floor("sink-full-zero-write", 20);
     for c in ["scenario-header", "scenario-directory", "scenario-read_directories", "scenario-write_directories", "scenario-open", "scenario-get_tile", "scenario-to_writer", "async", "sync", "internal-brotli", "internal-gzip", "internal-zstd", "internal-none"] {
